@@ -376,7 +376,7 @@ pub fn run(ctx: &Ctx) -> i32 {
     }
     ctx.finish(
         "model_checking",
-        vec![s, generated_keys(ctx), large_headers(ctx, &env), layouts(ctx, &env), key_files(ctx, &env)],
+        vec![s, generated_keys(ctx), large_headers(ctx, &env), layouts(ctx, &env), key_files(ctx, &env), signature_population(ctx, &env)],
         &[
             "all four signers are deterministic for a fixed timestamp, so equal histories give equal bytes and the graph closes; the result then holds for histories of any length over this alphabet",
             "every transition is a call of the real API (no separate model to validate): traces_validated_against_impl = transitions",
@@ -535,6 +535,59 @@ fn key_files(ctx: &Ctx, env: &Env) -> SubReport {
         }
     }
     SubReport::new("key-files", "A", "every certificate of every secret key file of the five standard keys (one of the files holds two) as a signer of a built package: the package verifies with the verifier loaded from the matching public file exactly when the signing key is the one that verifier stands for (its first certificate), and with no other standard key", acc)
+}
+
+/// Many signatures per key: the encoding of a signature varies from one to the next (an MPI drops its leading zero bytes,
+/// so one signature in 128 is a byte shorter and its base64 text ends differently); every one of them must behave alike.
+fn signature_population(ctx: &Ctx, env: &Env) -> SubReport {
+    let pkg = crate::corpus::one_file().build(env).unwrap_or_else(|e| crate::ctx::machinery(&format!("c10 population: {}", e)));
+    let plan: Vec<(Key, u32)> = vec![(Key::Ed25519, if ctx.thorough() { 8192 } else { 1536 }), (Key::EcdsaP256, if ctx.thorough() { 8192 } else { 1536 }), (Key::Rsa4096, if ctx.thorough() { 512 } else { 24 })];
+    let mut cases: Vec<(Key, u32)> = vec![];
+    for (k, n) in &plan {
+        for j in 0..*n {
+            cases.push((*k, 1_700_000_000 + j));
+        }
+    }
+    let ids: Vec<(Key, String)> = ALL_KEYS.iter().map(|k| (*k, k.key_id(&ctx.repo))).collect();
+    let acc = Acc::merge_all(vlib::par::par_fold(cases.len() as u64, Acc::new, |i, acc| {
+        let (key, t) = cases[i as usize];
+        acc.evals += 1;
+        let case = || json!({"key": key.name(), "signed_at": t});
+        let mut p = pkg.clone();
+        match catch(|| p.sign_with_timestamp(env.signer(key), t)) {
+            Err(pn) => return acc.viol(panic_violation("signature-population", &pn, case()).rank(i)),
+            Ok(Err(e)) => return acc.viol(Violation::new("signature-population", format!("signing fails: {}", e), case()).sig("clause", "operation-fails").rank(i)),
+            Ok(Ok(())) => {}
+        }
+        let b = bytes_of(&p);
+        let q = match rpm::Package::parse(&mut &b[..]) {
+            Ok(q) => q,
+            Err(e) => return acc.viol(Violation::new("signature-population", format!("write + parse fails: {}", e), case()).sig("clause", "operation-fails").rank(i)),
+        };
+        acc.nontrivial += 1;
+        // length of the signature packet (from the legacy binary tag), to show that the shorter encodings occurred
+        if let Some((_, sig, _, _)) = vlib::refhdr::scan(&b) {
+            for tag in [268u32, 267] {
+                if let Some(e) = sig.entries.iter().skip(1).find(|e| e.tag == tag) {
+                    acc.count(&format!("{} signature packet of {} bytes (≡ {} mod 3)", key.name(), e.count, e.count % 3));
+                }
+            }
+        }
+        let own = catch(|| q.verify_signature(key.verifier(&ctx.repo))).map(|r| r.is_ok()).unwrap_or(false);
+        if !own {
+            acc.viol(Violation::new("signature-population", format!("the package signed at second {} does not verify with the {} key that signed it", t, key.name()), case()).sig("clause", "last-signer-does-not-verify").rank(i));
+        }
+        let other = if key == Key::Ed25519 { Key::EcdsaP256 } else { Key::Ed25519 };
+        if catch(|| q.verify_signature(other.verifier(&ctx.repo))).map(|r| r.is_ok()).unwrap_or(false) {
+            acc.viol(Violation::new("signature-population", format!("the package verifies with the {} key", other.name()), case()).sig("clause", "other-key-verifies").rank(i));
+        }
+        let want = ids.iter().find(|(k, _)| *k == key).map(|(_, id)| vec![id.clone()]);
+        let got = catch(|| q.signature_key_ids()).ok().and_then(|r| r.ok());
+        if got != want {
+            acc.viol(Violation::new("signature-population", format!("signed by {:?}, signature_key_ids() = {:?}", want, got), case()).sig("clause", "reported-signer").rank(i));
+        }
+    }));
+    SubReport::new("signature-population", "A", &format!("a built package signed at {} consecutive seconds with the Ed25519 key, as many with the ECDSA key and {} with the RSA-4096 key (the outcome counts list the signature packet lengths that occurred: about one signature in 128 has a shorter integer): each verifies with its key after write + parse, not with another key, and reports exactly that key's id", plan[0].1, plan[2].1), acc)
 }
 
 /// Every payload layout the builder can produce, through the same history.
